@@ -4,5 +4,10 @@ import GontainerModel.Props.C10
 #print axioms GM.C10.exit_is_0_or_1
 #print axioms GM.C10.error_list
 #print axioms GM.C10.end_line_count
+#print axioms GM.C10.read_failure_exits
+#print axioms GM.C10.unreadable_input_fails
+#print axioms GM.C10.glob_error_fails
+#print axioms GM.C10.nothing_processed_fails
+#print axioms GM.C10.duplicate_match_fails
 #print axioms GM.C10.quiet_same_effects
 #print axioms GM.C10.steps_pinned
